@@ -10,6 +10,11 @@ advanced in an interleaved order, a run abandoned half-way followed by another, 
 arguments used in turn, Slice.run and Slice.fill_into of one object interleaved, fill_into continued after
 LenaStopFill.  The oracle plays the same schedule on the Python reference (a fresh reference object per call) and
 demands equality for every call.
+
+Adversary round (notes/adversary_C17.md): flows whose values are containers themselves (the elements must not look into
+the values), the caller's container shared by several runs and read again after a run (the references leave it as it
+was), instances obtained with copy.deepcopy (families of Slice objects: Model/C17Adv.lean), flows of 1000 .. 131073
+values (longer than any block size a rewrite may read its input in).
 """
 import itertools
 
@@ -17,10 +22,11 @@ from harness.common import exc_name
 
 PID = "C17"
 TITLE = "Flow iterators equal their Python reference (Slice is list slicing)"
-LEAN_MODULES = ["LenaModel.Props.C17", "LenaModel.Props.C17Ext"]
+LEAN_MODULES = ["LenaModel.Props.C17", "LenaModel.Props.C17Ext", "LenaModel.Props.C17Adv"]
 LEAN_SOURCES = ["LenaModel/Model/C17.lean", "LenaModel/Model/C17Sess.lean", "LenaModel/Model/C17Ext.lean",
+                "LenaModel/Model/C17Adv.lean",
                 "LenaModel/Lemmas/C17.lean", "LenaModel/Lemmas/C17Sess.lean", "LenaModel/Props/C17.lean",
-                "LenaModel/Props/C17Ext.lean"]
+                "LenaModel/Props/C17Ext.lean", "LenaModel/Props/C17Adv.lean"]
 DRIVER = "drivers/C17.lean"
 THEOREMS = [
     # --- the theorems that carry the property -----------------------------------------------------------------
@@ -58,12 +64,45 @@ THEOREMS = [
     # generators of one instance advanced in any interleaving are independent, provided creating a generator leaves
     # the instance as it was (the proviso is discharged by the transcription, validated by the correspondence)
     "Lena.C17.session_calls_independent",
+    # adversary round.  Objects made with copy.deepcopy (how lena multiplies elements): an object is disturbed neither
+    # by the others nor by being copied, a copy behaves as its original would have, every fresh copy of a Slice fills
+    # the slice of the values IT is fed with and every run of any object of the family is the slice of its flow
+    "Lena.C17.family_object_independent",
+    "Lena.C17.family_copy_as_original",
+    "Lena.C17.family_lineage",
+    "Lena.C17.family_lineage_events",
+    "Lena.C17.fresh_copies_independent",
+    "Lena.C17.slice_copies_fill_eq",
+    "Lena.C17.slice_family_run_eq",
+    # the elements never look into the values (a value that is a tuple / list / string is passed on as it is): the
+    # model's functions commute with any replacement of the values - Slice.run on every branch, fill_into, Reverse,
+    # Chain (a single iterable too), RunningChunkBy
+    "Lena.C17.slice_run_natural",
+    "Lena.C17.fill_into_natural",
+    "Lena.C17.reverse_natural",
+    "Lena.C17.chain_natural",
+    "Lena.C17.chunks_natural",
 ]
 # Structural lemmas, bridges between executable and specification-side definitions, and statements that hold by the
 # way the model is written (a model whose `run` returns the instance unchanged keeps no state): audited for axioms,
 # NOT counted as proof obligations that carry the property.  That the real elements keep no state between runs is
 # established by the correspondence check and the oracle (sessions), not by these.
 AUX_THEOREMS = [
+    "Lena.C17.famEvents_append",
+    "Lena.C17.eventsOf_append",
+    "Lena.C17.objAfter_append",
+    "Lena.C17.objEvents_append",
+    "Lena.C17.lineage_existing",
+    "Lena.C17.famAfter_fresh_copies",
+    "Lena.C17.famEvents_copies",
+    "Lena.C17.objEvents_slice",
+    "Lena.C17.pySlice_map",
+    "Lena.C17.everyNthAux_map",
+    "Lena.C17.windows_map",
+    "Lena.C17.fillTrace_map",
+    "Lena.C17.filledOf_map",
+    "Lena.C17.chain_single",
+    "Lena.C17.chain_append",
     "Lena.C17.chain_spec",
     "Lena.C17.windows_short",
     "Lena.C17.session_no_generator",
@@ -105,9 +144,18 @@ TRUSTED = [
     "harness: they record the branch structure only; float steps are one constructor (StepArg.float) of the model",
     "the elements are driven directly (run / __call__ / fill_into), not through Sequence/Split; how the framework drives "
     "them is the business of C01/C05 and the bridge theorems",
+    "copy.deepcopy of a Slice gives an object with an equal, separate state (Model/C17Adv.lean: a copy is the same "
+    "SliceInst value): that the real class keeps nothing outside its instance attributes (no closure, class attribute or "
+    "module table shared by the copies) rests on the correspondence check and the oracle over families of copies",
+    "that an element leaves the container it is given as its flow unchanged is checked by the oracle (the container is "
+    "read again after the run; one container is given to several runs), not proved: in the model a flow is a value",
+    "flows longer than 1100 values (up to 131073 in the quick tier) are checked by the oracle only; the model, whose "
+    "theorems hold for every length, is asked up to 1100 values (its transcribed loops are quadratic in the interpreter)",
 ]
 ASSUMPTIONS = [
-    "finite flows of integers stand for finite flows of arbitrary values (the code never inspects the values)",
+    "finite flows of integers stand for finite flows of arbitrary values: the model's functions commute with any "
+    "replacement of the values (theorems *_natural), and the real elements are run on flows whose values are tuples, "
+    "lists, strings, dicts, frozensets, empty and nested containers, compared with the translated answer of the model",
     "pySlice (Lean) is Python list slicing: checked against xs[a:b:s] on every case",
     "a flow is any finite iterable (lena.core.flow_to_iter): the model's list semantics must hold whether run gets an "
     "iterator, a list, a tuple, a range, a generator, a deque, a dict (keys), a set/frozenset (in its iteration order), "
@@ -128,6 +176,14 @@ ASSUMPTIONS = [
     "Reverse on an endless flow (it must consume the whole flow) and CountFrom with non-integer numbers (floats are not "
     "compared) are outside; __eq__/__repr__ and the LenaTypeError of RunningChunkBy.__init__ are outside the statement: "
     "correspondence only",
+    "copies: the statement is taken to hold for every Slice object, also one obtained with copy.deepcopy from an object "
+    "that has not been filled yet (how lena multiplies elements: init_bins(deepcopy=True), SplitIntoBins, vectorize) - "
+    "oracle; what a deepcopy of an already FILLED Slice does (/repo: it continues from the position of the original; a "
+    "__deepcopy__ that starts afresh would be as legitimate) is outside the statement: correspondence only; copy.copy "
+    "(shallow: the copies share the _indices iterator in /repo) and pickling (the _islice lambda) are not promised, not tested",
+    "the flow object given to run is left as it was whenever it can be iterated again (the Python references do not "
+    "change xs): taken as part of 'equals reversed(list(xs)) / xs[start:stop:step] / the windows' - evaluated on the same "
+    "xs after the run the reference must give what was yielded; one-shot iterators are consumed, by necessity",
 ]
 RULE = ("quick and thorough: exhaustive enumeration of start,stop in {None,-7..7} x step in {None,1..4} x len 0..10 "
         "(plus one- and two-argument call forms, steps 0,-1,-3 for rejection), fill_into for all non-negative "
@@ -152,7 +208,23 @@ RULE = ("quick and thorough: exhaustive enumeration of start,stop in {None,-7..7
         "(lengths 16,17,33,64,65,129,257 x 14 index values around them x steps None,2,17; Reverse up to 1000 values; Chain "
         "iterables up to 257; chunk sizes 15..64; sessions with flows up to 129), thorough adds 8000 log-uniform cases "
         "(lengths to 5000, indices to 2000, steps and chunk sizes to 300). Non-trivial: result non-empty, any event, or "
-        "an exception.")
+        "an exception. Adversary round (both tiers, deterministic): values that are containers (kinds pair (i, {'i': i}), list, str, "
+        "mixed = tuples/lists/strings/dicts/frozensets/empty/nested): Slice.run whole start/stop/step scope on flows of 6/10/7 "
+        "such values (iterator, list, tuple; generator and deque for steps None/2), fill_into whole non-negative scope, "
+        "Reverse lengths 0..12 x 7 flow kinds, RunningChunkBy(1..5) x 3 containers, sessions and twins; Chain with 0..4 "
+        "iterables of 0..3 values x list/tuple/iterator/generator/range x 5 value kinds, one object given 1..4 times, 300 "
+        "iterables, sessions with 1 and 2 iterables. One container read by several runs of an instance (`same`): Slice "
+        "whole scope x steps None/2/3 x schedules, Reverse lengths 0..7 x 9 container kinds x 6 schedules, RunningChunkBy; "
+        "70 generators of one instance alive at once; every single-run case with a re-iterable flow also checks that the "
+        "container holds afterwards what it held. Copies: twins whose second instance is copy.deepcopy of the first "
+        "(fresh / after a generator of the first yielded 0 or 3 values) for Slice whole scope, Reverse, RunningChunkBy, "
+        "CountFrom (all call shapes), Chain; families of Slice objects (copy.deepcopy, fill_into, run in turn; 3 templates) "
+        "for the whole non-negative scope and all call forms. Long flows: 21 lengths 1000..131073 (2**k, 2**k+-1, k=10..17, "
+        "1500, 3001, 5003, 10001, 20011, 50021, 100003) x every element (Slice 20 index/step triples around 0, n/2, n and "
+        "the powers of two, steps 1000/1024/1025; fill_into/fill_trace 8; chunk sizes 1, 3, 1023, 1025, n-1, n, n+1; Chain "
+        "long iterable first/last/split/after 40 short ones; sessions on flows of n, n/2+1, 7 values and on one shared "
+        "list), model asked up to 1100 values. Thorough adds 12000 random cases of these families and 25 random lengths "
+        "up to 300000.")
 CASE_TIMEOUT = 10
 
 
@@ -166,15 +238,301 @@ def _slice_cases(starts, stops, steps, lens):
 
 def gen_cases(ctx):
     """a generator (the shared machinery samples it lazily)"""
-    yield from _base_cases()
-    yield from _reuse_cases()
-    yield from _ext_cases()
-    yield from _long_cases()
+    small = list(itertools.chain(_base_cases(), _reuse_cases(), _ext_cases(), _long_cases(), _adv_cases()))
+    # the few expensive cases are spread over the list (the model requests are answered in consecutive blocks, in parallel)
+    huge = list(_huge_cases(_HUGE))
+    k = max(1, len(small) // (len(huge) + 1))
+    for i, c in enumerate(small):
+        yield c
+        if i % k == k - 1 and huge:
+            yield huge.pop()
+    yield from huge
     ctx.exhaustive = True
     if ctx.tier == "thorough":
         ctx.exhaustive = False  # the random part is sampled
         yield from _random_cases(ctx.rng)
         yield from _random_long_cases(ctx.rng)
+        yield from _random_adv_cases(ctx.rng)
+        yield from _huge_cases(sorted({1000 + _logu(ctx.rng, 300000) for _ in range(25)}), ctx.rng)
+
+
+# ---- adversary round: values that are containers, the caller's objects shared / unchanged, copies of instances,
+#      flows longer than any block size --------------------------------------------------------------------------
+def _same(case, tpl, n):
+    """a schedule in which every run of the instance is given the SAME flow object (n values)"""
+    ops = _schedule(case, tpl, (n, n, n))
+    return [_flow(0, n) if isinstance(o, list) else o for o in ops]
+
+
+FAM_TEMPLATES = ("fresh", "mid", "runs")
+
+
+def _fam_ops(tpl, n=9):
+    """operations on a family of Slice objects (see run_impl, op 'fam')"""
+    if tpl == "fresh":      # three copies of the fresh object; all four fed in turn, each with its own values
+        return [["c", 0]] * 3 + [[k, 100 * k + r] for r in range(n) for k in range(4)]
+    if tpl == "mid":        # copies taken while the objects are being filled; a copy of a copy
+        ops = [[0, r] for r in range(3)] + [["c", 0]]
+        ops += [[k, 100 * k + r] for r in range(3, 6) for k in (1, 0)] + [["c", 1], ["c", 0]]
+        return ops + [[k, 100 * k + r] for r in range(6, n + 3) for k in (2, 0, 3, 1)]
+    if tpl == "runs":       # run and fill_into of the original and of a fresh copy interleaved
+        ops = [["c", 0], [1, _flow(0, 8)], [0, 0], [1, 100], [0, _flow(1, 5)], [1, 101], ["c", 0]]
+        return ops + [[k, 100 * k + r] for r in range(2, n) for k in (0, 1)] + [[2, _flow(2, 9)], [0, _flow(3, 9)]] + \
+            [[2, 200 + r] for r in range(n)]
+    raise ValueError(tpl)
+
+
+def _adv_cases():
+    """deterministic: the whole listed space is enumerated"""
+    idx = [None] + list(range(-7, 8))
+    nn = [None] + list(range(0, 8))
+    steps = [None, 1, 2, 3, 4]
+    # (A) flows whose values are containers themselves: the whole scope of start/stop/step
+    for a in idx:
+        for b in idx:
+            for st in steps:
+                yield {"op": "slice", "start": a, "stop": b, "step": st, "n": 6, "form": 3, "vk": "mixed"}
+                yield {"op": "slice", "start": a, "stop": b, "step": st, "n": 10, "form": 3, "vk": "pair", "flow": "list"}
+                yield {"op": "slice", "start": a, "stop": b, "step": st, "n": 7, "form": 3, "vk": "mixed", "flow": "tuple"}
+                if st in (None, 2):
+                    yield {"op": "slice", "start": a, "stop": b, "step": st, "n": 5, "form": 3, "vk": "list", "flow": "gen"}
+                    yield {"op": "slice", "start": a, "stop": b, "step": st, "n": 8, "form": 3, "vk": "str", "flow": "deque"}
+    for a in nn:
+        for b in nn:
+            for st in steps:
+                for n, vk in ((6, "mixed"), (10, "pair")):
+                    yield {"op": "fill_into", "start": a, "stop": b, "step": st, "n": n, "vk": vk}
+    for n in range(0, 13):
+        for vk in LIFT_KINDS:
+            for fk in (None, "list", "tuple", "gen", "deque", "iteronly", "getitem"):
+                yield dict({"op": "reverse", "n": n, "vk": vk}, **({"flow": fk} if fk else {}))
+            for cs in range(1, 6):
+                for cont in ("tuple", "list", "star"):
+                    yield {"op": "chunks", "cs": cs, "n": n, "container": cont, "vk": vk}
+                    if n in (6, 7):
+                        yield {"op": "chunks", "cs": cs, "n": n, "container": cont, "vk": vk, "flow": "list"}
+    # Chain: 0..4 iterables of 0..3 values each, as lists / tuples / iterators / generators / ranges, the values plain
+    # and containers (one list of pairs, one tuple of tuples, ... : Chain must not look into the values)
+    for k in range(0, 5):
+        for lens in itertools.product(range(0, 4), repeat=k):
+            for kind in ("list", "tuple", "iter", "gen"):
+                for vk in ("int",) + LIFT_KINDS:
+                    yield {"op": "chain_v", "lens": list(lens), "kind": kind, "vk": vk}
+            yield {"op": "chain_v", "lens": list(lens), "kind": "range", "vk": "int"}
+    for k in range(1, 5):
+        for n in range(0, 4):
+            for kind in ("list", "tuple", "range", "iter", "gen"):
+                for vk in ("int", "mixed"):
+                    if kind != "range" or vk == "int":
+                        # the same object k times (a one-shot iterator is exhausted by its first turn)
+                        yield {"op": "chain_v", "lens": [n] * k, "kind": kind, "vk": vk, "alias": True}
+    # many iterables; many generators of one instance alive at once
+    for kind in ("list", "iter"):
+        yield {"op": "chain_v", "lens": [i % 3 for i in range(300)], "kind": kind, "vk": "pair"}
+    many = [[]] * 70 + [g for _ in range(3) for g in range(70)]
+    yield {"op": "sess", "el": "countfrom", "start": 2, "step": 5, "tpl": "many", "ops": many}
+    yield {"op": "sess", "el": "chain", "lens": [2, 1], "kind": "list", "tpl": "many", "ops": many}
+    yield {"op": "sess", "el": "chain", "lens": [40, 41], "kind": "iter", "tpl": "many", "ops": many}
+    for el, extra in (("reverse", {}), ("slice", {"start": -3, "stop": None, "step": None}),
+                      ("chunks", {"cs": 2, "container": "tuple"})):
+        base = dict({"op": "sess", "el": el, "tpl": "many"}, **extra)
+        yield dict(base, ops=[_flow(g % 9, 4 + g % 3) for g in range(70)] + [g for _ in range(3) for g in range(70)])
+        yield dict(base, same=True, fk="list", tpl="many:same",
+                   ops=[_flow(0, 5) for g in range(70)] + [g for _ in range(3) for g in range(70)])
+    for k in (1, 2):
+        for lens in itertools.product(range(0, 4), repeat=k):
+            for kind in ("list", "tuple", "range", "iter", "gen"):
+                for vk in ("int", "pair", "mixed"):
+                    if kind == "range" and vk != "int":
+                        continue
+                    for tpl in TEMPLATES:
+                        base = {"op": "sess", "el": "chain", "lens": list(lens), "kind": kind, "vk": vk}
+                        yield dict(base, tpl=tpl, ops=[([] if isinstance(o, list) else o)
+                                                       for o in _schedule(base, tpl, (0, 0, 0))])
+            for vk in ("int", "mixed"):
+                yield {"op": "twins", "el": "chain", "lens": list(lens), "kind": "list", "vk": vk}
+                yield {"op": "twins", "el": "chain", "lens": list(lens), "kind": "tuple", "vk": vk, "copy": "deep"}
+    for tpl in TEMPLATES:
+        for vk in ("pair", "mixed"):
+            for a, b, st in ((None, None, None), (-3, None, None), (None, -2, 2), (1, 5, None), (-5, 4, None), (2, -1, 3)):
+                base = {"op": "sess", "el": "slice", "start": a, "stop": b, "step": st, "vk": vk}
+                yield dict(base, tpl=tpl, ops=_schedule(base, tpl, (7, 5, 6)))
+                yield dict(base, tpl=tpl, fk="list", ops=_schedule(base, tpl, (6, 8, 3)))
+            base = {"op": "sess", "el": "reverse", "vk": vk}
+            yield dict(base, tpl=tpl, ops=_schedule(base, tpl, (5, 3, 4)))
+            yield dict(base, tpl=tpl, fk="tuple", ops=_schedule(base, tpl, (4, 6, 2)))
+            for cs in (1, 2, 3):
+                base = {"op": "sess", "el": "chunks", "cs": cs, "container": "tuple", "vk": vk}
+                yield dict(base, tpl=tpl, ops=_schedule(base, tpl, (6, 4, 5)))
+    # (B) one container read by several runs of the instance (the caller's object is shared, never consumed)
+    for tpl in TEMPLATES:
+        for a in idx:
+            for b in idx:
+                for st in (None, 2, 3):
+                    base = {"op": "sess", "el": "slice", "start": a, "stop": b, "step": st, "same": True}
+                    fk = ("list", "tuple", "range", "deque", "getitem", "iteronly")[(idx.index(a) + idx.index(b)) % 6]
+                    if tpl in ("seq", "lock", "lock3") or fk == "list":
+                        yield dict(base, tpl=tpl + ":same", fk="list", ops=_same(base, tpl, 8))
+                    if fk != "list" and tpl in ("seq", "lock", "part"):
+                        yield dict(base, tpl=tpl + ":same", fk=fk, ops=_same(base, tpl, 7))
+        for n in range(0, 8):
+            for fk in SESS_REITERABLE:
+                base = {"op": "sess", "el": "reverse", "same": True}
+                yield dict(base, tpl=tpl + ":same", fk=fk, ops=_same(base, tpl, n))
+            for cs in range(1, 5):
+                for fk in ("list", "tuple", "range", "deque"):
+                    base = {"op": "sess", "el": "chunks", "cs": cs, "container": "tuple", "same": True}
+                    yield dict(base, tpl=tpl + ":same", fk=fk, ops=_same(base, tpl, n))
+    # (D) copies: copy.deepcopy of an instance (fresh, or after a generator of it has been created and advanced) used
+    # in turn with the original
+    for pre in (None, 0, 3):
+        cp = {"copy": "deep"} if pre is None else {"copy": "deep", "pre": pre}
+        for a in idx:
+            for b in idx:
+                for st in ([None, 1, 3] if pre is None else [None, 2]):
+                    yield dict({"op": "twins", "el": "slice", "start": a, "stop": b, "step": st, "n": 9, "n2": 6}, **cp)
+        for n in range(0, 6):
+            yield dict({"op": "twins", "el": "reverse", "n": n, "n2": 4}, **cp)
+        for cs in range(1, 6):
+            for cont in ("tuple", "list", "star"):
+                yield dict({"op": "twins", "el": "chunks", "cs": cs, "container": cont, "n": 7, "n2": 5}, **cp)
+        for a, st in ((0, 1), (-3, -2), (5, 3), (2, 0)):
+            yield dict({"op": "twins", "el": "countfrom", "start": a, "step": st, "n": 6, "n2": 4}, **cp)
+        for shape in ("none", "pos1", "kw", "kwstep"):
+            base = {"op": "twins", "el": "countfrom", "cf": shape, "n": 6, "n2": 4}
+            if shape in ("pos1", "kw"):
+                base["start"] = 4
+            if shape in ("kw", "kwstep"):
+                base["step"] = 3
+            yield dict(base, **cp)
+        for lens in itertools.product(range(0, 3), repeat=3):
+            for kind in ("list", "tuple", "range"):
+                yield dict({"op": "twins", "el": "chain", "lens": list(lens), "kind": kind}, **cp)
+    # families of Slice objects made with copy.deepcopy, filled (and run) in turn
+    for a in nn:
+        for b in nn:
+            for st in steps:
+                forms = [3] + ([2] if st is None else []) + ([1] if st is None and a is None else [])
+                for form in forms:
+                    fm = {} if form == 3 else {"form": form}
+                    for tpl in FAM_TEMPLATES:
+                        yield dict({"op": "fam", "start": a, "stop": b, "step": st, "tpl": tpl, "ops": _fam_ops(tpl)}, **fm)
+    for a, b in ((-3, None), (None, -2), (-5, 4), (2, -1), (-4, -1)):
+        for st in (None, 2):
+            yield {"op": "fam", "start": a, "stop": b, "step": st, "tpl": "runs", "ops": _fam_ops("runs")}
+
+
+def _random_adv_cases(rng):
+    def ri(lo=-12, hi=12):
+        return None if rng.random() < 0.2 else rng.randint(lo, hi)
+    for _ in range(12000):
+        r = rng.random()
+        if r < 0.3:
+            # a random family: fills, runs and copies in any order
+            ops, nobj = [], 1
+            for j in range(rng.randint(2, 40)):
+                q = rng.random()
+                if q < 0.15 and nobj < 6:
+                    ops.append(["c", rng.randrange(nobj)])
+                    nobj += 1
+                elif q < 0.3:
+                    ops.append([rng.randrange(nobj), _flow(j % 7, rng.randint(0, 15))])
+                else:
+                    ops.append([rng.randrange(nobj), 1000 + j])
+            yield {"op": "fam", "start": ri(0, 12), "stop": ri(0, 12), "step": rng.choice([None, 1, 2, 3, 5]),
+                   "tpl": "random", "ops": ops}
+        elif r < 0.5:
+            k = rng.randint(0, 5)
+            kind = rng.choice(["list", "tuple", "iter", "gen", "range"])
+            yield {"op": "chain_v", "lens": [rng.randint(0, 6) for _ in range(k)], "kind": kind,
+                   "vk": "int" if kind == "range" else rng.choice(("int",) + LIFT_KINDS)}
+        elif r < 0.8:
+            el = rng.choice(["slice", "slice", "reverse", "chunks"])
+            base = {"op": "sess", "el": el, "same": True, "fk": rng.choice(SESS_REITERABLE)}
+            if el == "slice":
+                base.update(start=ri(), stop=ri(), step=rng.choice([None, 1, 2, 3, 5]))
+            elif el == "chunks":
+                base.update(cs=rng.randint(1, 6), container=rng.choice(["tuple", "list", "star"]))
+            tpl = rng.choice(TEMPLATES)
+            yield dict(base, tpl=tpl + ":same", ops=_same(base, tpl, rng.randint(0, 14)))
+        else:
+            el = rng.choice(["slice", "reverse", "chunks", "countfrom"])
+            base = {"op": "twins", "el": el, "n": rng.randint(0, 12), "n2": rng.randint(0, 12), "copy": "deep"}
+            if rng.random() < 0.5:
+                base["pre"] = rng.randint(0, 7)
+            if el == "slice":
+                base.update(start=ri(), stop=ri(), step=rng.choice([None, 1, 2, 3, 5]))
+                if rng.random() < 0.4:
+                    base["vk"] = rng.choice(LIFT_KINDS)
+            elif el == "chunks":
+                base.update(cs=rng.randint(1, 6), container=rng.choice(["tuple", "list", "star"]))
+            elif el == "countfrom":
+                base.update(start=rng.randint(-20, 20), step=rng.randint(-4, 4))
+            yield base
+
+
+# ---- flows longer than any block size a rewrite may read its input in (2**10 .. 2**17, 10**3 .. 10**5) -----------
+_HUGE = (1000, 1023, 1024, 1025, 1500, 2047, 2048, 2049, 3001, 4096, 4097, 5003, 8193, 10001, 16385, 20011, 32769,
+         50021, 65537, 100003, 131073)
+
+
+def _case_len(case):
+    if "lens" in case:
+        return sum(case["lens"])
+    if "ops" in case:
+        return max([len(o) for o in case["ops"] if isinstance(o, list)] + [0])
+    return case.get("n", 0)
+
+
+def _huge_cases(lengths, rng=None):
+    """For every length n: every element on a flow of n values, with indices / steps / chunk sizes small, around n/2,
+    around n and around the powers of two below n.  Marked `huge`: the model is asked up to MODEL_MAX_LEN only."""
+    for n in lengths:
+        h = {"huge": True}
+        p2 = 1 << (n.bit_length() - 1)          # the largest power of two <= n
+        for j, fk in enumerate((None, "list", "tuple", "gen", "deque", "range")):
+            yield dict({"op": "reverse", "n": n}, **h, **({"flow": fk} if fk else {}))
+            if n > 20000:
+                break
+        trip = [(-3, None, None), (None, -3, None), (-(n - 1), None, 7), (5, -5, None), (-(n // 2), -(n // 4), 3),
+                (-(n // 2), n - 7, None), (None, n - 2, 1000), (n // 2, None, None), (1, None, 1024), (-p2, None, None),
+                (None, -p2, 2), (-(p2 + 1), -1, None), (p2 - 1, -1, None), (-n, n, p2), (None, None, None),
+                (1023, 1026, None), (-1025, -1022, None), (None, None, 1025), (n - 1, None, None), (-n - 5, 3, None)]
+        if rng is not None:
+            def ri():
+                return None if rng.random() < 0.15 else rng.randint(-n - 3, n + 3)
+            trip += [(ri(), ri(), rng.choice([None, 1, 2, 3, _logu(rng, n) + 1])) for _ in range(6)]
+        for j, (a, b, st) in enumerate(trip):
+            c = dict({"op": "slice", "start": a, "stop": b, "step": st, "n": n, "form": 3}, **h)
+            if j % 4 == 1:
+                c["flow"] = ("list", "tuple", "range", "gen", "deque")[(j // 4) % 5]
+            yield c
+        for a, b, st in ((None, None, None), (n - 3, None, None), (0, n - 1, 1023), (1000, n, 2), (None, 1025, None),
+                         (1024, None, 1024), (p2, n, 3), (None, n + 5, p2 - 1)):
+            yield dict({"op": "fill_into", "start": a, "stop": b, "step": st, "n": n + 2}, **h)
+            if b is not None and n <= 20000:
+                yield dict({"op": "fill_trace", "start": a, "stop": b, "step": st, "n": n + 2}, **h)
+        for cs in (1, 3) + ((1023, 1025) if 1025 <= n <= 1500 else ()) + ((n - 1, n, n + 1) if n <= 20011 else ()):
+            for cont in ("tuple", "list", "star") if n <= 5003 else ("tuple",):
+                yield dict({"op": "chunks", "cs": cs, "n": n, "container": cont}, **h)
+        for lens in ([n], [5, n], [n // 2, 0, n - n // 2], [1] * 40 + [n]):
+            for kind, vk in (("list", "int"), ("iter", "pair"), ("tuple", "mixed")):
+                yield dict({"op": "chain_v", "lens": lens, "kind": kind, "vk": vk}, **h)
+                if n > 5003:
+                    break
+        yield dict({"op": "countfrom", "start": -7, "step": 3, "n": n}, **h)
+        if n <= 2100:
+            # one instance on several long flows, several generators alive
+            for tpl in ("seq", "lock"):
+                lens = (n, n // 2 + 1, 7)
+                for a, b, st in ((None, -(n // 2), 2), (-(n - 2), -2, 1000)):
+                    base = dict({"op": "sess", "el": "slice", "start": a, "stop": b, "step": st}, **h)
+                    yield dict(base, tpl=tpl + ":huge", ops=_schedule(base, tpl, lens))
+                base = dict({"op": "sess", "el": "reverse"}, **h)
+                yield dict(base, tpl=tpl + ":huge", ops=_schedule(base, tpl, lens))
+                yield dict(base, tpl=tpl + ":huge:same", fk="list", same=True, ops=_same(base, tpl, n))
+                base = dict({"op": "sess", "el": "chunks", "cs": n - 5, "container": "tuple"}, **h)
+                yield dict(base, tpl=tpl + ":huge", ops=_schedule(base, tpl, lens))
 
 
 def _base_cases():
@@ -696,16 +1054,43 @@ def _random_reuse_case(rng):
 _FALSY = [0, None, False, "", (), 0.0, 7, None]
 
 
+# value kinds whose values are themselves containers / iterables (lena's usual (data, context) pairs, lists, strings,
+# dicts, empty containers): an element that looks INTO the values (unpacks them, tests them for __iter__, flattens
+# them) breaks the property although flows of integers pass.  `_lift(vk, i)` is the value that stands at the place of
+# the integer i of the model's flow.
+LIFT_KINDS = ("pair", "list", "str", "mixed")
+
+
+def _lift(vk, i):
+    if vk in (None, "int"):
+        return i
+    if vk == "pair":
+        return (i, {"i": i})
+    if vk == "list":
+        return [i, [i]]
+    if vk == "str":
+        return "v%d" % i
+    if vk == "mixed":
+        return ((i, {"c": i}), [i, i], "w%d" % i, (i,), {"k": i}, frozenset((i,)), (), [], [[i]], ((i, i), (i,)))[i % 10]
+    raise ValueError(vk)
+
+
+def _lifts(vk, xs):
+    return [_lift(vk, x) for x in xs]
+
+
 def _vals(case, n=None):
     """The flow of a case: integers 0..n-1 by default; with vk='falsy' a palette of falsy values and None
     (elements that a sentinel-based or truthiness-based rewrite would mistake for the end of the flow);
-    with vk='none' the odd positions hold None."""
+    with vk='none' the odd positions hold None; with a vk of LIFT_KINDS values that are containers themselves."""
     n = case["n"] if n is None else n
     vk = case.get("vk", "int")
     if vk == "int":
         return list(range(n))
     if vk == "none":
         return [None if i % 2 else i for i in range(n)]
+    if vk in LIFT_KINDS:
+        return _lifts(vk, range(n))
     return [_FALSY[i % len(_FALSY)] for i in range(n)]
 
 
@@ -810,7 +1195,8 @@ def run_impl(case):
         except Exception as e:
             return {"e": exc_name(e), "phase": "init"}
         try:
-            return {"r": _encs(sl.run(_mk_flow(case.get("flow"), xs)))}
+            fo = _mk_flow(case.get("flow"), xs)
+            return _with_after(case.get("flow"), fo, {"r": _encs(sl.run(fo))})
         except Exception as e:
             return {"e": exc_name(e), "phase": "run"}
     if op == "fill_into":
@@ -832,7 +1218,8 @@ def run_impl(case):
         return {"r": _encs(st.vals), "stop": stop_at}
     if op == "reverse":
         try:
-            return {"r": _encs(lena.flow.Reverse().run(_mk_flow(case.get("flow"), _vals(case))))}
+            fo = _mk_flow(case.get("flow"), _vals(case))
+            return _with_after(case.get("flow"), fo, {"r": _encs(lena.flow.Reverse().run(fo))})
         except Exception as e:
             return {"e": exc_name(e), "phase": "run"}
     if op == "chain":
@@ -862,8 +1249,9 @@ def run_impl(case):
             return {"e": exc_name(e), "phase": "init"}
         try:
             # collect first, look afterwards: a consumer keeps the chunks it was given (`list(rcb.run(flow))`)
-            chunks = list(el.run(_mk_flow(case.get("flow"), _vals(case))))
-            return {"r": [_encs(c) for c in chunks]}
+            fo = _mk_flow(case.get("flow"), _vals(case))
+            chunks = list(el.run(fo))
+            return _with_after(case.get("flow"), fo, {"r": [_encs(c) for c in chunks]})
         except Exception as e:
             return {"e": exc_name(e), "phase": "run"}
     if op == "sess":
@@ -875,9 +1263,23 @@ def run_impl(case):
     if op == "twins":
         # two instances built from the same arguments, one generator each, advanced in turn
         try:
-            sp1, sp2 = _real_spawner(case), _real_spawner(case)
+            sp1 = _real_spawner(case)
+            if not case.get("copy"):
+                sp2 = _real_spawner(case)
         except Exception as e:
             return {"e": exc_name(e), "phase": "init"}
+        if case.get("copy"):
+            # the second instance is a copy.deepcopy of the first (how lena multiplies elements: one per bin, per
+            # branch), taken when the first is fresh or (`pre`) after a generator of it has been created and advanced
+            import copy
+            try:
+                if case.get("pre") is not None:
+                    g0 = sp1(_flow(2, 6))
+                    for _ in range(case["pre"]):
+                        next(g0, None)
+                sp2 = _real_spawner(case, inst=copy.deepcopy(sp1.inst))
+            except Exception as e:
+                return {"e": exc_name(e), "phase": "copy"}
         return _play_twins(case, sp1, sp2)
     if op == "fill_trace":
         try:
@@ -886,6 +1288,38 @@ def run_impl(case):
             return {"e": exc_name(e), "phase": "init"}
         st = _Store()
         return {"out": [_fill_once(sl, st, x) for x in _vals(case)], "r": _encs(st.vals)}
+    if op == "chain_v":
+        its = _chain_iterables(case)
+        try:
+            out = {"r": _encs(lena.flow.Chain(*its)())}
+        except Exception as e:
+            return {"e": exc_name(e), "phase": "run"}
+        if case.get("kind", "list") in REITERABLE:
+            out["after"] = [_encs(list(it)) for it in its]
+        return out
+    if op == "fam":
+        # a family of Slice objects: number 0 is constructed, ["c", i] appends copy.deepcopy(object i);
+        # [i, v] = object i .fill_into(element, v); [i, [flow]] = list(object i .run(iter(flow)))
+        import copy
+        try:
+            fam = [lena.flow.Slice(*_args(case))]
+        except Exception as e:
+            return {"e": exc_name(e), "phase": "init"}
+        ev = []
+        for o in case["ops"]:
+            if o[0] == "c":
+                try:
+                    fam.append(copy.deepcopy(fam[o[1]]))
+                except Exception as e:
+                    return {"e": exc_name(e), "phase": "copy", "ev": ev}
+            elif isinstance(o[1], list):
+                try:
+                    ev.append([o[0], {"r": _encs(fam[o[0]].run(iter(o[1])))}])
+                except Exception as e:
+                    ev.append([o[0], {"e": exc_name(e)}])
+            else:
+                ev.append([o[0], _fill_once(fam[o[0]], _Store(), o[1])])
+        return {"ev": ev}
     if op == "fill2":
         try:
             sl1 = lena.flow.Slice(*_args(case))
@@ -933,7 +1367,9 @@ def run_impl(case):
                 return {"e": exc_name(e), "phase": "init"}
         out = {"repr": repr(sl), "warn": sorted({x.category.__name__ for x in w})}
         try:
-            out["r"] = _encs(sl.run(_mk_flow(case.get("flow"), list(range(case["n"])))))
+            fo = _mk_flow(case.get("flow"), list(range(case["n"])))
+            out["r"] = _encs(sl.run(fo))
+            _with_after(case.get("flow"), fo, out)
         except Exception as e:
             out.update(e=exc_name(e), phase="run")
         return out
@@ -978,10 +1414,11 @@ def run_impl(case):
         except Exception as e:
             return {"e": exc_name(e), "phase": "init"}
         try:
-            chunks = list(el.run(_mk_flow(case.get("flow"), xs)))
+            fo = _mk_flow(case.get("flow"), xs)
+            chunks = list(el.run(fo))
         except Exception as e:
             return {"e": exc_name(e), "phase": "run"}
-        return {"r": [_enc_chunk(case["container"], cont, c) for c in chunks]}
+        return _with_after(case.get("flow"), fo, {"r": [_enc_chunk(case["container"], cont, c) for c in chunks]})
     raise ValueError(op)
 
 
@@ -1017,6 +1454,31 @@ def _mk_flow(kind, xs):
 
 
 FLOW_KINDS = ("list", "tuple", "range", "gen", "deque", "dict", "set", "frozenset", "str", "iteronly", "getitem")
+# the kinds that can be iterated again: the Python references (xs[a:b:s], reversed(list(xs)), the windows of xs) leave
+# such an xs as it was, so the reference evaluated on the caller's object AFTER the run must still give what was yielded
+REITERABLE = ("list", "tuple", "range", "deque", "dict", "set", "frozenset", "str", "iteronly", "getitem")
+
+
+SESS_REITERABLE = tuple(k for k in REITERABLE if k != "str")     # sessions name their flows by integers
+
+
+def _with_after(kind, flow_obj, out):
+    """record what the caller's re-iterable container holds after the run"""
+    if kind in REITERABLE:
+        out["after"] = _encs(list(flow_obj))
+    return out
+
+
+def _changed_input(case, res):
+    """None, or the text of the failure: the element changed the container it was given as its flow"""
+    if "after" not in res:
+        return None
+    before = _encs(_fvals(case))
+    if res["after"] == before:
+        return None
+    return (f"the flow xs was given as a {case.get('flow')} holding {_sh(before)}; after the run the caller's xs holds "
+            f"{_sh(res['after'])}: the Python reference evaluated on the same xs no longer gives what was yielded "
+            f"({_sh(res.get('r') or [])})")
 
 
 def _dec(v):
@@ -1118,9 +1580,13 @@ def _fill_once(sl, store, v):
 
 
 def _chain_iterables(case):
-    """fresh iterables for a Chain session (kind 'iter': one-shot iterators, shared by all calls)"""
+    """fresh iterables for a Chain session (kind 'iter': one-shot iterators, shared by all calls); with `vk` their
+    values are the lifted ones"""
     kind = case.get("kind", "list")
-    xss = _chain_xss(case)
+    xss = [_lifts(case.get("vk"), x) for x in _chain_xss(case)]
+    if case.get("alias") and xss:
+        one = _chain_iterables(dict(case, alias=False, lens=case["lens"][:1]))[0]
+        return [one] * len(xss)
     if kind == "list":
         return xss
     if kind == "tuple":
@@ -1136,36 +1602,70 @@ def _shared(case):
     return case.get("el") == "chain" and case.get("kind") in ("iter", "gen")
 
 
-def _real_spawner(case):
-    """Build ONE instance of the real element; return the function that makes a new generator from it."""
+class _FlowMaker:
+    """The flow object a session hands to `run` for the flow (a list of integers) named in the schedule: its values
+    lifted (`vk`), in the container kind `fk`.  With `same` the runs that name equal flows get ONE object - the
+    caller's container, read by several runs of the instance (two branches reading one buffered list, a second run over
+    the same data); only for re-iterable kinds."""
+
+    def __init__(self, case):
+        self.fk, self.vk = case.get("fk"), case.get("vk")
+        self.same = bool(case.get("same")) and self.fk in REITERABLE
+        self.objs = {}
+
+    def __call__(self, flow):
+        if not self.same:
+            return _mk_flow(self.fk, _lifts(self.vk, flow))
+        key = tuple(flow)
+        if key not in self.objs:
+            self.objs[key] = _mk_flow(self.fk, _lifts(self.vk, flow))
+        return self.objs[key]
+
+
+def _build_el(case):
+    """ONE instance of the real element of a session / twins / copies case"""
     import lena.flow
     el = case["el"]
-    fk = case.get("fk")
     if el == "slice":
-        sl = lena.flow.Slice(case["start"], case["stop"], case["step"])
-        return lambda flow: sl.run(_mk_flow(fk, flow))
+        return lena.flow.Slice(case["start"], case["stop"], case["step"])
     if el == "reverse":
-        rv = lena.flow.Reverse()
-        return lambda flow: rv.run(_mk_flow(fk, flow))
+        return lena.flow.Reverse()
     if el == "chunks":
         cont = case["container"]
         if cont == "tuple":
-            rc = lena.flow.RunningChunkBy(case["cs"])
-        elif cont == "list":
-            rc = lena.flow.RunningChunkBy(case["cs"], list, from_iterable=True)
-        else:
-            rc = lena.flow.RunningChunkBy(case["cs"], lambda *a: list(a))
-        return lambda flow: rc.run(_mk_flow(fk, flow))
+            return lena.flow.RunningChunkBy(case["cs"])
+        if cont == "list":
+            return lena.flow.RunningChunkBy(case["cs"], list, from_iterable=True)
+        return lena.flow.RunningChunkBy(case["cs"], lambda *a: list(a))
     if el == "chain":
-        its = _chain_iterables(case)
-        ch = lena.flow.Chain(*its)
-        sp = lambda flow: ch()
-        sp.its = its
-        return sp
+        return lena.flow.Chain(*_chain_iterables(case))
     if el == "countfrom":
-        cf = _cf_call(lena.flow.CountFrom, case)
-        return lambda flow: cf()
+        return _cf_call(lena.flow.CountFrom, case)
     raise ValueError(el)
+
+
+def _real_spawner(case, inst=None):
+    """Build ONE instance of the real element (or take the given one); return the function that makes a new generator
+    from it (attribute `inst`: the instance)."""
+    import lena.flow
+    el = case["el"]
+    its = None
+    if inst is None:
+        if el == "chain":
+            its = _chain_iterables(case)    # kept: what the shared one-shot iterators still hold is read from them
+            inst = lena.flow.Chain(*its)
+        else:
+            inst = _build_el(case)
+    if el in ("slice", "reverse", "chunks"):
+        mk = _FlowMaker(case)
+        sp = lambda flow: inst.run(mk(flow))
+    elif el in ("chain", "countfrom"):
+        sp = lambda flow: inst()
+        sp.its = its
+    else:
+        raise ValueError(el)
+    sp.inst = inst
+    return sp
 
 
 def _ref_spawner(case):
@@ -1174,7 +1674,7 @@ def _ref_spawner(case):
     el = case["el"]
     fk = case.get("fk")
     def order(flow):
-        return list(_mk_flow(fk, flow))
+        return list(_mk_flow(fk, _lifts(case.get("vk"), flow)))
     if el == "slice":
         return lambda flow: iter(order(flow)[case["start"]:case["stop"]:case["step"]])
     if el == "reverse":
@@ -1196,8 +1696,10 @@ def _ref_spawner(case):
 _REST_CAP = 20000     # longer than any finite flow of the generators; caps a mutated endless generator
 
 
-def _encv(v):
-    return _encs(v) if isinstance(v, (list, tuple)) else _enc(v)
+def _encv_of(case):
+    """encoder of the values a generator of the case's element yields: a chunk (RunningChunkBy) is encoded value by
+    value, anything else is one value"""
+    return _encs if case.get("el") == "chunks" else _enc
 
 
 def _play(case, spawn):
@@ -1206,6 +1708,7 @@ def _play(case, spawn):
     gens, raw = [], []
     tail = 3 if case["el"] == "countfrom" else _REST_CAP
     stop = object()
+    _encv = _encv_of(case)
     def enc(evs):
         return [[g, None if v is stop else _encv(v)] for g, v in evs]
     try:
@@ -1232,6 +1735,7 @@ def _play_twins(case, sp1, sp2):
     el = case["el"]
     f1, f2 = _flow(0, case.get("n", 0)), _flow(1, case.get("n2", 0))
     tail = 5 if el == "countfrom" else _REST_CAP
+    _encv = _encv_of(case)
     try:
         g1, g2 = sp1(f1), sp2(f2)
         a, b = [], []
@@ -1254,11 +1758,20 @@ def _chain_xss(case):
     for l in case["lens"]:
         xss.append(list(range(k, k + l)))
         k += l
+    if case.get("alias"):
+        # one iterable given several times: Chain(xs, xs, xs)
+        xss = [xss[0]] * len(xss) if xss else []
     return xss
+
+
+MODEL_MAX_LEN_SESS = 1030
+MODEL_MAX_LEN = 1100      # longer flows: oracle only (the model's transcribed loops are quadratic in the interpreter)
 
 
 def model_requests(case):
     op = case["op"]
+    if case.get("huge") and _case_len(case) > (MODEL_MAX_LEN_SESS if op == "sess" else MODEL_MAX_LEN):
+        return []
     if op == "slice":
         xs = list(range(case["n"]))
         a, b, s = case["start"], case["stop"], case["step"]
@@ -1318,6 +1831,14 @@ def model_requests(case):
         raise ValueError(el)
     if op == "fill_trace":
         return [{"op": "fill_trace_o", "args": list(_args(case)), "xs": list(range(case["n"]))}]
+    if op == "chain_v":
+        xss = _chain_xss(case)
+        if case.get("alias") and case.get("kind") in ("iter", "gen"):
+            # one one-shot iterator given several times holds its values once
+            xss = xss[:1] + [[] for _ in xss[1:]]
+        return [{"op": "chain", "xss": xss}]
+    if op == "fam":
+        return [{"op": "fam", "args": list(_args(case)), "ops": case["ops"]}]
     if op == "fill2":
         return [{"op": "fill_into_o", "args": list(_args(case)), "xs": f}
                 for f in (_flow(0, case["n"]), _flow(1, case["n2"]))]
@@ -1371,6 +1892,27 @@ def compare(case, res, replies):
         return _compare_reuse(case, res, replies)
     if op in ("slice_args", "eqrepr", "init_check", "chunks_c"):
         return _compare_ext(case, res, replies)
+    if op == "chain_v":
+        if "e" in res:
+            return f"impl raised {res} vs model {m}"
+        want = [_enc(_lift(case.get("vk"), i)) for i in m["r"]]
+        return None if res["r"] == want else f"impl {res['r']} vs model {want}"
+    if op == "fam":
+        if "e" in m or "e" in res:
+            if res.get("e") == m.get("e") and res.get("phase") == "init":
+                return None
+            return f"impl {res} vs model {m}"
+        fix = lambda e: "Other:AttributeError" if e == "AttributeError" else e
+        mev = [[i, fix(e)] for i, e in m["ev"]]
+        if res["ev"] != mev:
+            return f"impl {res['ev']} vs model {mev}"
+        # the projections the theorems speak about: the outcomes per object (eventsOf), and object j alone on the calls
+        # of its lineage (objEvents over lineage)
+        nobj = 1 + sum(1 for o in case["ops"] if o[0] == "c")
+        per = [[e for i, e in res["ev"] if i == j] for j in range(nobj)]
+        if [[fix(e) for e in r] for r in m["of"]] != per or m["alone"] != m["of"]:
+            return f"Lean eventsOf {m['of']} / objEvents over lineage {m['alone']} vs the outcomes per object {per}"
+        return None
     m = _map_model(case, m)
     if "e" in res and op not in ("slice",):
         return f"impl raised {res} vs model {m}"
@@ -1429,6 +1971,7 @@ def _compare_reuse(case, res, replies):
             return None
         return f"impl {res} vs model {m}"
     if op == "sess":
+        m = _lift_reply(case, m)
         if _shared(case):
             if res["ev"] != m["ev"] or res["left"] != m["left"]:
                 return f"impl events {res['ev']} left {res['left']} vs model events {m['ev']} left {m['left']}"
@@ -1450,7 +1993,7 @@ def _compare_reuse(case, res, replies):
         return None
     if op == "twins":
         got = [res["a"], res["b"]]
-        want = [replies[0].get("r"), replies[1].get("r")]
+        want = [_lift_reply(case, {"rest": [r.get("r")]})["rest"][0] for r in replies[:2]]
         return None if got == want else f"impl {got} vs model (two fresh instances) {want}"
     if op == "fill_trace":
         if res["out"] != m["out"] or res["r"] != m["r"]:
@@ -1472,6 +2015,25 @@ def _compare_reuse(case, res, replies):
                 return f"Lean fillOutcomes {m['fo']} / fillTrace over fillValues {m['ft']} vs fill_into outcomes {outs}"
         return None
     raise ValueError(op)
+
+
+def _lift_reply(case, m):
+    """the model runs a session on integers; with `vk` the real flows carry the lifted values"""
+    vk = case.get("vk")
+    if vk in (None, "int"):
+        return m
+    one = lambda i: _enc(_lift(vk, i))
+    f = (lambda c: [one(i) for i in c]) if case.get("el") == "chunks" else one
+    out = dict(m)
+    if "ev" in m:
+        out["ev"] = [[g, None if v is None else f(v)] for g, v in m["ev"]]
+    for k in ("rest", "vals", "pred"):
+        if k in m:
+            out[k] = [None if r is None else [f(v) for v in r] for r in m[k]]
+    for k in ("left", "all"):
+        if k in m:
+            out[k] = [f(v) for v in m[k]]
+    return out
 
 
 _MODEL_EXC = {"TypeError": ("Other:TypeError", "init"), "LenaValueError": ("LenaValueError", "init"),
@@ -1520,6 +2082,31 @@ def _compare_ext(case, res, replies):
     raise ValueError(op)
 
 
+def _sched(ops):
+    """a schedule as shown in a failure text"""
+    items = [(_sh(o) if isinstance(o, list) else repr(o)) for o in ops]
+    if len(items) > 60:
+        items = items[:40] + [f"... ({len(ops)} operations) ..."] + items[-10:]
+    return "[" + ", ".join(items) + "]"
+
+
+def _sh(xs):
+    """a list as shown in a failure text: long ones abbreviated"""
+    xs = list(xs)
+    if len(xs) <= 24:
+        return repr(xs)
+    return f"[{', '.join(map(repr, xs[:8]))}, ... ({len(xs)} values) ..., {', '.join(map(repr, xs[-4:]))}]"
+
+
+def _first_diff(got, ref):
+    """where two long lists differ (for failure texts)"""
+    if len(got) <= 24 and len(ref) <= 24:
+        return ""
+    k = next((i for i, (x, y) in enumerate(zip(got, ref)) if x != y), min(len(got), len(ref)))
+    return (f" (first difference at position {k}: {got[k] if k < len(got) else 'nothing'!r} instead of "
+            f"{ref[k] if k < len(ref) else 'nothing'!r})")
+
+
 def _windows(case, vals=False):
     xs, cs = (_encs(_fvals(case)) if vals else list(range(case["n"]))), case["cs"]
     return [xs[i:i + cs] for i in range(0, len(xs) - cs + 1)]
@@ -1537,11 +2124,13 @@ def oracle(case, res):
             return None
         fk = f" given as a {case['flow']}" if case.get("flow") else ""
         if "e" in res:
-            return f"Slice{_args(case)} raised {res} on flow {_fvals(case)}{fk}"
+            return f"Slice{_args(case)} raised {res} on flow {_sh(_fvals(case))}{fk}"
         ref = _encs(_fvals(case)[case["start"]:case["stop"]:s])
         if res["r"] != ref:
-            return f"Slice{_args(case)}.run({_fvals(case)}{fk}) = {res['r']} but xs[start:stop:step] = {ref}"
-        return None
+            return (f"Slice{_args(case)}.run({_sh(_fvals(case))}{fk}) = {_sh(res['r'])} but xs[start:stop:step] = "
+                    f"{_sh(ref)}{_first_diff(res['r'], ref)}")
+        ch = _changed_input(case, res)
+        return f"Slice{_args(case)}.run(xs): {ch}" if ch else None
     if op == "fill_into":
         if "e" in res:
             return f"fill_into raised {res}"
@@ -1552,10 +2141,11 @@ def oracle(case, res):
         # LenaStopFill only when no later index could be selected
         if st is None:
             if res["r"] != ref:
-                return f"Slice({a},{b},{s}).fill_into filled {res['r']} but slice is {ref}"
+                return f"Slice({a},{b},{s}).fill_into filled {_sh(res['r'])} but slice is {_sh(ref)}{_first_diff(res['r'], ref)}"
         else:
             if res["r"] != ref:
-                return f"Slice({a},{b},{s}).fill_into filled {res['r']} before LenaStopFill at {st}; slice is {ref}"
+                return (f"Slice({a},{b},{s}).fill_into filled {_sh(res['r'])} before LenaStopFill at {st}; slice is "
+                        f"{_sh(ref)}{_first_diff(res['r'], ref)}")
             # LenaStopFill at index st is legitimate only if no index >= st is selected
             if b is None:
                 return f"LenaStopFill at index {st} although stop is None (every later index {a or 0}+k*{s or 1} is selected)"
@@ -1567,12 +2157,30 @@ def oracle(case, res):
         return _oracle_reuse(case, res)
     if op in ("slice_args", "eqrepr", "init_check", "chunks_c"):
         return _oracle_ext(case, res)
+    if op == "fam":
+        return _oracle_fam(case, res)
     if "e" in res:
         return f"{op} raised {res} (case {case})"
+    if op == "chain_v":
+        its = _chain_iterables(case)
+        shown = [list(it) for it in _chain_iterables(case)]
+        ref = _encs(itertools.chain(*its))
+        kind = case.get("kind", "list")
+        show = "[" + ", ".join(_sh(x) for x in shown) + "]"
+        if res["r"] != ref:
+            return (f"Chain(*iterables)() with the {len(shown)} iterable(s) {show} (given as {kind}s) yields {_sh(res['r'])}, "
+                    f"itertools.chain(*iterables) yields {_sh(ref)}{_first_diff(res['r'], ref)}")
+        if "after" in res and res["after"] != [_encs(x) for x in shown]:
+            return (f"Chain(*iterables)() with the iterables {show} (given as {kind}s): afterwards the caller's iterables "
+                    f"hold {[_sh(x) for x in res['after']]}")
+        return None
     if op == "reverse":
         ref = _encs(reversed(_fvals(case)))
         fk = f" (flow given as a {case['flow']})" if case.get("flow") else ""
-        return None if res["r"] == ref else f"Reverse gives {res['r']}, reversed(list(xs)) = {ref}{fk}"
+        if res["r"] != ref:
+            return f"Reverse gives {_sh(res['r'])}, reversed(list(xs)) = {_sh(ref)}{fk}{_first_diff(res['r'], ref)}"
+        ch = _changed_input(case, res)
+        return f"Reverse().run(xs): {ch}" if ch else None
     if op == "chain":
         ref = list(itertools.chain(*_chain_xss(case)))
         return None if res["r"] == ref else f"Chain gives {res['r']}, itertools.chain = {ref}"
@@ -1583,7 +2191,11 @@ def oracle(case, res):
         return None if res["r"] == ref else f"CountFrom{shape} gives {res['r']}, itertools.count{shape} = {ref}"
     if op == "chunks":
         ref = _windows(case, vals=True)
-        return None if res["r"] == ref else f"RunningChunkBy({case['cs']}) gives {res['r']}, windows = {ref}"
+        if res["r"] != ref:
+            return (f"RunningChunkBy({case['cs']}) on a flow of {case['n']} values gives {_sh(res['r'])}, windows = "
+                    f"{_sh(ref)}{_first_diff(res['r'], ref)}")
+        ch = _changed_input(case, res)
+        return f"RunningChunkBy({case['cs']}).run(xs): {ch}" if ch else None
     raise ValueError(op)
 
 
@@ -1634,6 +2246,8 @@ def _oracle_ext(case, res):
             return f"{name} raised {res} on the flow {xs}{fk}"
         if res["r"] != xs[a:b:s]:
             return f"{name}.run({xs}{fk}) = {res['r']} but xs[start:stop:step] = {xs[a:b:s]}"
+        if "after" in res and res["after"] != xs:
+            return f"{name}.run(xs) with xs a {case.get('flow')} holding {xs}: after the run the caller's xs holds {res['after']}"
         return None
     if op == "eqrepr":
         return None                         # __eq__/__repr__ are outside the statement: correspondence only
@@ -1657,8 +2271,58 @@ def _oracle_ext(case, res):
         if res["r"] != ref:
             return (f"RunningChunkBy({cs}, container {case['container']}).run({xs}) gives {res['r']}, the sliding "
                     f"windows in that container are {ref}")
+        if "after" in res and res["after"] != _encs(list(_mk_flow(case.get("flow"), xs))):
+            return (f"RunningChunkBy({cs}, container {case['container']}).run(xs) with xs a {case.get('flow')} holding "
+                    f"{xs}: after the run the caller's xs holds {res['after']}")
         return None
     raise ValueError(op)
+
+
+def _oracle_fam(case, res):
+    """Every Slice object of the family - the constructed one and every copy.deepcopy of an object that had not been
+    filled yet - fills exactly the slice of the values IT is fed with, whatever is done with the others; every run of
+    any of them is the slice of its flow.  (A copy of an object that has already been filled: correspondence only.)"""
+    if "e" in res:
+        return f"family of Slice{_args(case)} objects: {res} (operations {case['ops']})"
+    a, b, s = _triple(case)
+    neg = any(v is not None and v < 0 for v in (a, b))
+    legend = ("operations: ['c', i] = append copy.deepcopy(object i); [i, v] = object i .fill_into(element, v); "
+              "[i, [flow]] = object i .run(flow); object 0 is the constructed one")
+    fed, fresh = [[]], [True]
+    evs = iter(res["ev"])
+    for o in case["ops"]:
+        if o[0] == "c":
+            fresh.append(fresh[o[1]] and not fed[o[1]])
+            fed.append(list(fed[o[1]]))
+            continue
+        k, e = next(evs)
+        if isinstance(o[1], list):
+            ref = o[1][a:b:s]
+            if e != {"r": ref}:
+                return (f"object {k} of a family of Slice({a},{b},{s}) objects: run({o[1]}) gave {e} but "
+                        f"xs[start:stop:step] = {ref}; {legend}: {case['ops']}")
+            continue
+        if neg:
+            continue
+        pos = len(fed[k])
+        fed[k].append(o[1])
+        if not fresh[k]:
+            continue
+        sel = range(a or 0, pos + 1 if b is None else b, s or 1)
+        if pos in sel:
+            if e != "filled":
+                return (f"object {k} of a family of Slice({a},{b},{s}) objects was fed with {fed[k]}: the value at "
+                        f"index {pos} belongs to the slice {fed[k][a:b:s]} but the outcome of fill_into was {e!r}; "
+                        f"{legend}: {case['ops']}")
+        elif e == "stop":
+            msg = _fill_stop_legit(a, b, s, pos)
+            if msg:
+                return f"object {k} of a family of Slice({a},{b},{s}) objects: {msg}; {legend}: {case['ops']}"
+        elif e != "skipped":
+            return (f"object {k} of a family of Slice({a},{b},{s}) objects was fed with {fed[k]}: the value at index "
+                    f"{pos} is not in the slice {fed[k][a:b:s]} but the outcome of fill_into was {e!r}; {legend}: "
+                    f"{case['ops']}")
+    return None
 
 
 _REF_NAME = {"slice": "xs[start:stop:step]", "reverse": "reversed(list(xs))", "chunks": "the sliding windows of xs",
@@ -1731,20 +2395,32 @@ def _oracle_reuse(case, res):
         want, _ = _per_gen(ref["ev"], ref["rest"])
         name = _el_text(case)
         starts = [o for o in case["ops"] if isinstance(o, list)]
+        how = ""
+        if case.get("vk") in LIFT_KINDS:
+            how += (f"; an integer i in the flows stands for a container value (kind {case['vk']}; 7 stands for "
+                    f"{_lift(case['vk'], 7)!r})")
+        if case.get("same"):
+            how += f"; runs that name equal flows are given ONE {case.get('fk')} object (the caller's container)"
+        elif case.get("fk"):
+            how += f"; the flows are given as {case['fk']}s"
         for g, (x, y) in enumerate(zip(got, want)):
             if x != y:
-                flow = "" if case["el"] in ("chain", "countfrom") else f" on the flow {starts[g]}"
-                return (f"call number {g + 1} of one {name} instance{flow} yielded {x}, but {_REF_NAME[case['el']]} "
-                        f"gives {y} (schedule: {case['ops']}; a list = new run/call of the instance, g = next of "
-                        f"generator g)")
+                flow = "" if case["el"] in ("chain", "countfrom") else f" on the flow {_sh(starts[g])}"
+                return (f"call number {g + 1} of one {name} instance{flow} yielded {_sh(x)}, but {_REF_NAME[case['el']]} "
+                        f"gives {_sh(y)}{_first_diff(x, y)} (schedule: {_sched(case['ops'])}; a list = new run/call of "
+                        f"the instance, g = next of generator g{how})")
         return (f"{name}: generator(s) {sorted(set(bad))} yielded after StopIteration or stopped at a different point "
-                f"than the reference: events {res['ev']} vs reference {ref['ev']} (schedule {case['ops']})")
+                f"than the reference: events {_sh(res['ev'])} vs reference {_sh(ref['ev'])} (schedule "
+                f"{_sched(case['ops'])}{how})")
     if op == "twins":
         ref = _play_twins(case, _ref_spawner(case), _ref_spawner(case))
         if res == ref:
             return None
-        return (f"two {_el_text(case)} instances used in turn yielded {res['a']} and {res['b']}, the references "
-                f"{_REF_NAME[case['el']]} give {ref['a']} and {ref['b']}")
+        what = "instances" if not case.get("copy") else (
+            "instances, the second a copy.deepcopy of the first" + (
+                "" if case.get("pre") is None else f" taken after a run of the first had yielded {case['pre']} values,"))
+        return (f"two {_el_text(case)} {what} used in turn yielded {_sh(res.get('a', res))} and {_sh(res.get('b', []))}, "
+                f"the references {_REF_NAME[case['el']]} give {_sh(ref['a'])} and {_sh(ref['b'])}")
     a, b, s = _triple(case)
     if op == "fill_trace":
         fed = _vals(case)
@@ -1799,7 +2475,7 @@ def _oracle_reuse(case, res):
 
 
 def nontrivial(case, res):
-    if case["op"] in ("sess", "slice_inst"):
+    if case["op"] in ("sess", "slice_inst", "fam"):
         return "e" in res or bool(res.get("ev"))
     if case["op"] in ("twins", "fill2"):
         return "e" in res or bool(res.get("a")) or bool(res.get("b"))
@@ -1809,7 +2485,18 @@ def nontrivial(case, res):
 
 
 def classify(case, res):
+    extra = (["values:" + case["vk"]] if case.get("vk") in LIFT_KINDS else []) + \
+            (["same-container"] if case.get("same") else []) + (["deepcopy"] if case.get("copy") else []) + \
+            (["huge"] if case.get("huge") else [])
+    return _classify(case, res) + extra
+
+
+def _classify(case, res):
     op = case["op"]
+    if op == "chain_v":
+        return ["chain_v:%d-iterables" % len(case["lens"]), "chain_v:" + case.get("kind", "list")]
+    if op == "fam":
+        return ["fam:" + case.get("tpl", "")]
     if op == "slice":
         a, b = case["start"], case["stop"]
         def k(v):
@@ -1847,6 +2534,13 @@ def classify(case, res):
 def signature(case, failure):
     if case.get("op") == "slice_args" and len(case["args"]) == 3 and case["args"][2] in ("f:inf", "f:nan"):
         return "slice-step-inf-nan-wrong-exception"             # notes/C17_defect_3 (exactly these two steps)
+    op = case.get("op")
+    if case.get("huge"):
+        return f"{op}:{case.get('el', '')}:huge:{case.get('flow', case.get('fk', case.get('kind', 'iter')))}"
+    if op == "chain_v":
+        return f"chain_v:{case.get('kind')}:{case.get('vk')}:{len(case['lens'])}:{bool(case.get('alias'))}"
+    if op == "fam":
+        return f"fam:{case.get('tpl')}:{case.get('step')}:{case.get('form', 3)}"
     c = dict(case)
     if "ops" in c:
         # one report per element configuration and schedule family, not per schedule
@@ -1855,7 +2549,17 @@ def signature(case, failure):
 
 
 def shrink(case):
-    if "ops" in case:
+    if case.get("vk") in LIFT_KINDS:
+        yield {k: v for k, v in case.items() if k != "vk"}
+    if case["op"] == "fam":
+        ops = case["ops"]
+        for i in reversed(range(len(ops))):
+            if ops[i][0] != "c":
+                yield dict(case, ops=ops[:i] + ops[i + 1:])
+        for i, o in enumerate(ops):
+            if o[0] != "c" and isinstance(o[1], list) and o[1]:
+                yield dict(case, ops=ops[:i] + [[o[0], o[1][:-1]]] + ops[i + 1:])
+    elif "ops" in case:
         ops = case["ops"]
         for i in reversed(range(len(ops))):
             # dropping a `next`; dropping a run/call only if no later operation refers to a generator
@@ -1866,10 +2570,17 @@ def shrink(case):
             if isinstance(o, list) and o:
                 yield dict(case, ops=ops[:i] + [o[:-1]] + ops[i + 1:])
     for k in ("n", "n2"):
+        if k in case and case[k] > 40:
+            yield dict(case, **{k: case[k] // 2})
+            yield dict(case, **{k: case[k] - case[k] // 8})
         if k in case and case[k] > 0:
             yield dict(case, **{k: case[k] - 1})
     if isinstance(case.get("lens"), list):
         for i, l in enumerate(case["lens"]):
+            if case["op"] == "chain_v":
+                yield dict(case, lens=case["lens"][:i] + case["lens"][i + 1:])
+            if l > 40:
+                yield dict(case, lens=case["lens"][:i] + [l // 2] + case["lens"][i + 1:])
             if l > 0:
                 yield dict(case, lens=case["lens"][:i] + [l - 1] + case["lens"][i + 1:])
     if case["op"] == "slice_args":
@@ -1881,6 +2592,8 @@ def shrink(case):
                 yield dict(case, args=args[:i] + [v - 1 if v > 0 else v + 1] + args[i + 1:])
     for k in ("start", "stop"):
         v = case.get(k)
+        if isinstance(v, int) and abs(v) > 40:
+            yield dict(case, **{k: v // 2 if v > 0 else -((-v) // 2)})
         if isinstance(v, int) and v != 0:
             yield dict(case, **{k: v - 1 if v > 0 else v + 1})
     if isinstance(case.get("step"), int) and case["step"] > 1:
@@ -1896,10 +2609,17 @@ LEVEL_TEXT = ("Lean 4 theorems about a transcribed model of Slice/Reverse/Chain/
               "that the real elements satisfy the proviso is established by the correspondence and the oracle, which drive "
               "them through the same schedules (not by a theorem: in the model it holds by transcription). The rest of the anchored code is modelled too (Model/C17Ext.lean): the sys.maxsize limits "
               "of islice/deque, the call forms and ISlice, __eq__/__repr__, type checks at construction, the containers of "
-              "RunningChunkBy, Chain over one-shot iterators shared by all calls (conservation theorem).")
+              "RunningChunkBy, Chain over one-shot iterators shared by all calls (conservation theorem). Adversary round "
+              "(Model/C17Adv.lean, Props/C17Adv.lean): families of objects made with copy.deepcopy (an object is disturbed "
+              "neither by the others nor by being copied; a copy behaves as its original would; every fresh copy of a Slice "
+              "fills the slice of the values it is fed with) and naturality theorems (Slice.run on every branch, fill_into, "
+              "Reverse, Chain, RunningChunkBy commute with any replacement of the values: they never look into them), "
+              "exercised on flows of tuples/lists/strings/dicts; the caller's container is shared between runs and read "
+              "again after each run; flows of up to 131073 values in the quick tier.")
 LEVEL_NOTE = ("Trusted: Lean kernel (+ propext, Classical.choice, Quot.sound), the hand transcription validated by the "
               "exhaustive-in-scope correspondence run, itertools/deque semantics as transcribed, the JSON protocol. "
-              "THEOREMS lists the 30 theorems that carry the property; 24 structural/bridging/definitional lemmas are in "
-              "AUX_THEOREMS (audited, not counted). Statelessness of the real elements between runs is checked, not proved.")
+              "THEOREMS lists the 41 theorems that carry the property; 39 structural/bridging/definitional lemmas are in "
+              "AUX_THEOREMS (audited, not counted). Statelessness of the real elements between runs, that copies share "
+              "nothing and that the caller's container is left unchanged are checked, not proved.")
 TECHNIQUE = "Lean 4 proof over hand-written model + exhaustive-in-scope correspondence check"
 DESIGN_REF = "DESIGN.md section 3, C17"
